@@ -67,6 +67,9 @@ var commonAssumptions = []string{
 const realVsStub = "real: client, frame, segment, message, primitive, datatype, compression, crc packages (instrumented copy of the working tree), Go channels/mutexes/contexts/timers; stub: TCP (sim/net.go), clock (synctest), OS scheduler (seeded baton), logging (zerolog disabled)"
 
 var cfgs = map[string]*propCfg{
+	"C15": {Profile: "client", QuickCases: 960, ThoroughCases: 60000, QuickSecs: 120, ThoroughSecs: 1800, Level: "exploration",
+		Rule: "case = three seeded fault-free sessions (version, compression, auth, link capacity/latency/chunking and schedule drawn): (1) real client <-> real server exchanging generated version-valid frames of every message kind (framegen), compared after normalisation in both directions, with both wire taps parsed by the independent refwire codec (unframed handshake, then valid v5 segments, envelopes not individually compressed); (2) a raw refwire client against the real server and (3) a raw refwire server against the real client, packing several envelopes into one segment and splitting envelopes (up to ~400 KiB) over non-self-contained segments at drawn points. distinct = distinct event-log fingerprints; non-trivial = at least one frame delivered and at least one switch between tasks inside repository code",
+		Assumptions: []string{"the raw peer spells the COMPRESSION option as the library's client does (upper case) and puts at least the 9-byte envelope header into the first part of a split envelope", "frames are generated version-valid by harness/sim/framegen.go, under-approximating validity"}},
 	"C07": {Profile: "client", QuickCases: 480, ThoroughCases: 20000, QuickSecs: 120, ThoroughSecs: 2400, Level: "fault_enumeration",
 		Rule: "direct family: a segment encoded by the real codec (no compressor / LZ4, several payload classes, both flag values) is altered inside the checksums' guaranteed range and handed to the real DecodeSegment; enumerated sub-spaces are listed under enumerated_subspaces (quick: every header+CRC24 pattern of weight 1..4 over 48 and 64 bits, weights 5..7 sampled; thorough: every pattern of weight 1..7 for 3 seeded header values per header size; all single flips of payload+CRC32 for payloads up to 4 KiB, all pairs for tiny payloads, sampled pairs and bursts of 1..32 bits at every offset otherwise). live family: a seeded v5 session between real client and server over the simulated network is run fault-free and then re-run with one segment of one direction corrupted in transit (1..7 header bits, 1-2 payload bits, or a burst). evaluations = simulated runs + direct alterations evaluated; distinct_nontrivial = distinct event-log fingerprints of live runs in which the corruption fired + enumerated (hence pairwise distinct) direct alterations whose control decode succeeded",
 		Assumptions: []string{"CRC parameters of the independent checker (refwire) follow Cassandra's Crc.java; alterations outside the guaranteed detection range are never injected"}},
